@@ -15,6 +15,25 @@ CLAIMED = {
             "Trusted: rustc nightly MIR construction and callee resolution; factdrv serialisation; the exemption "
             "tables in rules/c03.py. Known genuine defects are listed in known_findings.json.",
             "DESIGN.md §4 C03"),
+    "C08": ("MIR field-use coverage, match exhaustiveness, decision-table extraction (formatter o registry o parser), "
+            "taint flow to the writer, writer typestate",
+            "Decides necessary conditions of meaning preservation exactly: every non-span AST field is read by the "
+            "formatter; dispatchers name every variant; operator spellings round-trip through the lexer registry and "
+            "the parser's token table (all extracted from MIR, exhaustive over the operator enums); escape tables of "
+            "formatter and lexer are inverse; quoted payloads reach the writer only through an escaping call; float "
+            "literals keep their kind; statements end their line. It does not decide parse(fmt(x)) = parse(x).",
+            "Trusted: rustc nightly MIR; the lexer tokenises by the registry spellings; QUOTED_PAYLOADS table in "
+            "rules/c08.py. Known genuine defects in known_findings.json.",
+            "DESIGN.md §4 C08"),
+    "C09": ("dominance / control-dependence on mode flags, who-may-call over std::fs, abstract interpretation of the "
+            "FormatWriter typestate",
+            "Decides exactly: fs mutators in format_files are dominated by !check_mode and !diff_mode and the "
+            "formatting API cannot reach a mutator; rewrite and --check verdict share one comparison; the writer's "
+            "abstract state at finish() is 'exactly one newline'; no newline follows a literal ending in a blank; no "
+            "tab literal. fmt(fmt(x)) == fmt(x) itself (a relation between two runs) is not decided.",
+            "Trusted: rustc nightly MIR; writer API transfer functions in rules/linestate.py; run-time strings "
+            "assumed non-empty without trailing blank; BLANK_EXEMPT table. Known findings listed.",
+            "DESIGN.md §4 C09"),
 }
 
 NOT_APPLICABLE = {
